@@ -69,7 +69,13 @@ class CacheResolver:
         params = {a.arg for a in f_def.node.args.args[1:]} | {a.arg for a in f_def.node.args.kwonlyargs}
         stored: dict[str, str] = {}
         for n in walk_no_nested(f_def.node):
-            if isinstance(n, (ast.Assign, ast.AnnAssign)) and n.value is not None and isinstance(n.value, ast.Name) and n.value.id in params:
+            # … and so does a local that is stored, as it is, into an attribute next to the cached value (`self.a = x; self.c = f(x)`)
+            is_local_store = (isinstance(n, (ast.Assign, ast.AnnAssign)) and isinstance(n.value, ast.Name) and n.value.id not in params
+                              and abs(n.lineno - st_def.lineno) <= 3 and not any(
+                                  isinstance(m, (ast.Assign, ast.AugAssign)) and min(n.lineno, st_def.lineno) < m.lineno < max(n.lineno, st_def.lineno)
+                                  and any(isinstance(t_, ast.Name) and t_.id == n.value.id for t_ in (m.targets if isinstance(m, ast.Assign) else [m.target]))
+                                  for m in walk_no_nested(f_def.node)))
+            if isinstance(n, (ast.Assign, ast.AnnAssign)) and n.value is not None and isinstance(n.value, ast.Name) and (n.value.id in params or is_local_store):
                 for t in (n.targets if isinstance(n, ast.Assign) else [n.target]):
                     if isinstance(t, ast.Attribute) and norm(t.value) == "self":
                         stored.setdefault(n.value.id, t.attr)
@@ -85,7 +91,18 @@ class CacheResolver:
                 if p not in used_names:
                     continue
                 sub.env[p] = sub.tr(ast.Attribute(value=ast.Name(id="self", ctx=ast.Load()), attr=a, ctx=ast.Load()))
-            val = sub.tr(v_def)
+            # the vocabulary recognises quantities by their text (`np.min(self.shaped_masses)`): translate the definition
+            # with the stored parameters / locals spelled as the attributes they are stored in
+            import copy as _copy
+
+            class _Sub(ast.NodeTransformer):
+                def visit_Name(self_, n_):
+                    if isinstance(n_.ctx, ast.Load) and n_.id in stored and n_.id in used_names:
+                        return ast.Attribute(value=ast.Name(id="self", ctx=ast.Load()), attr=stored[n_.id], ctx=ast.Load())
+                    return n_
+
+            v_sub = ast.fix_missing_locations(_Sub().visit(_copy.deepcopy(v_def)))
+            val = sub.tr(v_sub)
         except Exception:
             return None
         finally:
